@@ -1651,11 +1651,13 @@ def lsoda_part(ctx, rng, only=None):
         ctx.violation("corr:C11:lsoda-model-eval", "coqc", "model evaluation failed",
                       {"log": str(e)}, found_input=False)
         return
-    agree = {"source": 0, "repaired_only": 0, "none": 0}
+    agree = {"source": 0, "old_rule_only": 0, "none": 0}
     for i, (c, (views, oracle, bad), sc) in enumerate(zip(cases, runs, scs)):
         def canon(v):
             return [(x[0], x[1][0], x[1][1], x[1][2], x[1][3]) for x in vlib.parse_coq_value(v)]
-        msrc, mfix = canon(vals[2 * i]), canon(vals[2 * i + 1])
+        # the source follows the rule `fixed = true` (commit 9575753); the rule
+        # before it is evaluated only to name a regression
+        msrc, mold = canon(vals[2 * i + 1]), canon(vals[2 * i])
         im = [(a, b, sc(c_), sc(d), sc(e)) for a, b, c_, d, e in views]
         n = len(im)
         numeric_edge = False
@@ -1664,8 +1666,8 @@ def lsoda_part(ctx, rng, only=None):
             # only the fact that the call raised is compared for that call
             def same(m):
                 return im[:n - 1] == m[:n - 1] and len(m) >= n and m[n - 1][0] is True
-            a_src, a_fix = same(msrc), same(mfix)
-            if not a_src and not a_fix and im[:n - 1] == msrc[:n - 1]:
+            a_src, a_old = same(msrc), same(mold)
+            if not a_src and not a_old and im[:n - 1] == msrc[:n - 1]:
                 # a failure inside lsoda that the bookkeeping model does not
                 # produce: a forward request while the window is at rounding
                 # scale (first steps after a reset are ~1e-15 long)
@@ -1674,18 +1676,19 @@ def lsoda_part(ctx, rng, only=None):
                     numeric_edge = True
                     a_src = True
         else:
-            a_src, a_fix = im == msrc[:n], im == mfix[:n]
+            a_src, a_old = im == msrc[:n], im == mold[:n]
         ctx.count_case(("lsoda", json.dumps(c)), nontrivial=len(c["ops"]) >= 4)
         ctx.cov["traces_validated_against_impl"] += 1
-        agree["source" if a_src else "repaired_only" if a_fix else "none"] += 1
+        agree["source" if a_src else "old_rule_only" if a_old else "none"] += 1
         if bad:
             site, sig = "scipy_integrator.IntegratorScipylsoda.mcstep", bad[0].split(":")[0]
             if numeric_edge:
                 site, sig = SITE_LSODA_PROBE, "forward-request-on-rounding-scale-window-illegal-input"
-            elif bad[0].startswith("lsoda-failure") and a_src and not a_fix:
+            elif bad[0].startswith("lsoda-failure") and a_old and not a_src:
+                # the behaviour of _backstep before commit 9575753 is back
                 site, sig = SITE_LSODA, "restart-at-window-back-then-illegal-input"
             ctx.violation(site, sig, bad[0], {"kind": "lsoda", "case": c})
-        if not a_src and not a_fix:
+        if not a_src and not a_old:
             first = next((j for j in range(min(n, len(msrc))) if im[j] != msrc[j]), 0)
             ctx.violation("corr:scipy_integrator.IntegratorScipylsoda",
                           bad[0].split(":")[0] if bad else "model-differs",
